@@ -53,13 +53,15 @@ def build(scratch, specs, extra_text=''):
     out.append(t); shas['OutputFormat::from'] = h
     out.append('}')
     out.append('impl Field {')
-    t, h = splice_fn(field, 'is_boolean_field', 'Field', specs.get('Field::is_boolean_field'))
-    out.append(t); shas['Field::is_boolean_field'] = h
+    for f in ['is_boolean_field', 'is_numeric_field', 'is_datetime_field']:
+        t, h = splice_fn(field, f, 'Field', specs.get('Field::' + f))
+        out.append(t); shas['Field::' + f] = h
     out.append(specs['__field_from_str'])
     out.append('}')
     out.append('impl Function {')
-    t, h = splice_fn(func, 'is_boolean_function', 'Function', specs.get('Function::is_boolean_function'))
-    out.append(t); shas['Function::is_boolean_function'] = h
+    for f in ['is_boolean_function', 'is_numeric_function', 'is_aggregate_function']:
+        t, h = splice_fn(func, f, 'Function', specs.get('Function::' + f))
+        out.append(t); shas['Function::' + f] = h
     out.append(specs['__function_from_str'])
     try:
         t, h = splice_fn(func, 'is_argumentless_function', 'Function', dict(external_body=True, ret='r', ensures=['r == spec_argless(*self)']))
@@ -69,7 +71,8 @@ def build(scratch, specs, extra_text=''):
     out.append('}')
     # ---- Expr constructors (verbatim) ----
     out.append('impl Expr {')
-    for f in ['op', 'logical_op', 'arithmetic_op', 'field', 'function', 'function_left', 'value']:
+    for f in ['op', 'logical_op', 'arithmetic_op', 'field', 'function', 'function_left', 'value',
+              'has_aggregate_function', 'contains_numeric', 'contains_numeric_field', 'contains_datetime', 'contains_datetime_field']:
         t, h = splice_fn(expr, f, 'Expr', specs.get('Expr::' + f))
         out.append(t); shas['Expr::' + f] = h
     out.append('}')
